@@ -586,7 +586,7 @@ Print Assumptions C13_settings_copy_kinds_refuted.
 (** PARTIAL: the heap-level update assigns only into the objects it logs, whatever the table and the sharing.  Missing for
     "the construction never assigns into an object of the caller": that the logged objects are the freshly parsed defaults
     (needs distinct keys and an unshared default tree) — evaluated inside Coq on every recorded construction instead
-    (SettingsTie.heap_check: log above the caller's objects, caller's tree unchanged, same sharing as the implementation). *)
+    (SettingsExec.heap_check: log above the caller's objects, caller's tree unchanged, same sharing as the implementation). *)
 Theorem C13_settings_merge_writes_logged_partial :
   forall act f h ra na, frame_ok (hmerge_with act f h ra na) h [].
 Proof. exact hmerge_frame. Qed.
